@@ -421,3 +421,17 @@ def install(reg):
             raise OutOfSubset("nx.DiGraph(<args>)")
         return Val(TPN, T.EmptyPN)
     reg.module_calls[("nx", "DiGraph")] = digraph
+
+
+_install_s2 = install
+
+
+def install(reg):
+    _install_s2(reg)
+
+    def coerce(eng, st, v, ty):
+        # a BooleanNetwork passed where the solver expects a Petri net: trappist_async translates it (network_to_petrinet)
+        if v.ty == TNetObj and ty == TPN:
+            return Val(TPN, T.PNOfNet(v.t))
+        return None
+    reg.add_hook("coerce", coerce)
